@@ -17,6 +17,7 @@ import (
 
 	"github.com/janelia-flyem/dvid/datastore"
 	"github.com/janelia-flyem/dvid/dvid"
+	"github.com/janelia-flyem/dvid/server"
 
 	"verif/harness/dv"
 	"verif/harness/lib"
@@ -711,6 +712,36 @@ func (h *hist) exec(op *jop) (string, int) {
 		term = fmt.Sprintf("zMerge %d %s", op.Target, coqU64s(op.Labels))
 		req, _ := json.Marshal(append([]uint64{op.Target}, op.Labels...))
 		cls = classOf(dv.Post(h.url("lm", "merge"), req))
+	case "split":
+		// body split of the x-interval [P[0], Q[0]] (all y, z of the volume): sparse volume of bs*bs runs
+		label = true
+		a, b := op.P[0], op.Q[0]
+		var buf bytes.Buffer
+		buf.WriteByte(0) // dvid.EncodingBinary
+		buf.WriteByte(3) // dimensions
+		buf.WriteByte(0) // runs along x
+		buf.WriteByte(0)
+		binary.Write(&buf, binary.LittleEndian, uint32(0))
+		binary.Write(&buf, binary.LittleEndian, uint32(bs*bs))
+		for zz := 0; zz < bs; zz++ {
+			for yy := 0; yy < bs; yy++ {
+				binary.Write(&buf, binary.LittleEndian, [4]int32{int32(a), int32(yy), int32(zz), int32(b - a + 1)})
+			}
+		}
+		r := dv.Post(h.url("lm", fmt.Sprintf("split/%d", op.Target)), buf.Bytes())
+		cls = classOf(r)
+		var m struct{ Label uint64 }
+		if cls == 0 {
+			if err := json.Unmarshal(r.Body, &m); err != nil || m.Label == 0 {
+				cls = 2
+			}
+		}
+		h.addKnown(m.Label)
+		var bl []string
+		for bx := floorDiv(a, bs); bx <= floorDiv(b, bs); bx++ {
+			bl = append(bl, pos{bx, 0, 0}.coq())
+		}
+		term = fmt.Sprintf("zSplit %d %d [%s] [(%s,%s)]", op.Target, m.Label, strings.Join(bl, ";"), z(a), z(b))
 	case "cleave":
 		label = true
 		in := map[uint64]bool{}
@@ -1412,6 +1443,36 @@ func (g *gstate) genMerge() *jop {
 	return op
 }
 
+// genSplit: a proper part of one body, an x-interval inside one of its runs
+func (g *gstate) genSplit() *jop {
+	bl := g.bodies()
+	if len(bl) == 0 {
+		return nil
+	}
+	body := bl[g.r.Intn(len(bl))]
+	runs := runsOf(func(x int) bool { return g.h.body[x-xmin] == body })
+	total := 0
+	for _, r := range runs {
+		total += r[1] - r[0] + 1
+	}
+	if total < 2 {
+		return nil
+	}
+	r := runs[g.r.Intn(len(runs))]
+	a := r[0] + g.r.Intn(r[1]-r[0]+1)
+	b := a + g.r.Intn(r[1]-a+1)
+	if g.r.Chance(0.3) { // a whole run, or up to a block border
+		a, b = r[0], r[1]
+	}
+	if b-a+1 >= total {
+		if a == b {
+			return nil
+		}
+		b--
+	}
+	return &jop{Op: "split", Target: body, P: pos{a, 0, 0}, Q: pos{b, 0, 0}}
+}
+
 func (g *gstate) genCleave() *jop {
 	var cands []uint64
 	svs := map[uint64][]uint64{}
@@ -1561,7 +1622,13 @@ func (g *gstate) genQuery() jquery {
 func (g *gstate) genOp(f *flags) *jop {
 	for {
 		var op *jop
-		w := g.r.Intn(114)
+		w := g.r.Intn(121)
+		if w >= 114 {
+			if op = g.genSplit(); op != nil {
+				return op
+			}
+			continue
+		}
 		if w >= 107 {
 			if op = g.genHostile(f); op != nil {
 				return op
@@ -1803,6 +1870,13 @@ func corpus() []jcase {
 			{Op: "reload", Blocks: []jblock{{B: pos{0, 0, 0}, Elems: []elem{{Pos: pos{5, 4, 4}, Kind: 2, Tags: []int{1}}, {Pos: pos{16, 4, 4}, Kind: 1}}}}},
 			{Op: "reload", Blocks: []jblock{{B: pos{0, 0, 0}, Elems: []elem{{Pos: pos{5, 4, 4}, Kind: 2, Tags: []int{1}}, {Pos: pos{5, 4, 4}, Kind: 1}}}}, Force: true},
 		}},
+		// (vi) body split (labelmap /split enabled through the server configuration): across a block border
+		{Paint0: pt, Ops: []jop{
+			{Op: "post", Elems: []elem{{Pos: pos{-2, 1, 1}, Kind: 2}, {Pos: pos{-9, 1, 1}, Kind: 1}, {Pos: pos{5, 1, 1}, Kind: 1}, {Pos: pos{2, 15, 0}, Kind: 4}, {Pos: pos{5, 16, 1}, Kind: 3}}},
+			{Op: "merge", Target: 1, Labels: []uint64{5}},
+			{Op: "split", Target: 1, P: pos{-4, 0, 0}, Q: pos{3, 0, 0}, Force: true},
+			{Op: "split", Target: 1, P: pos{5, 0, 0}, Q: pos{5, 0, 0}, Force: true},
+		}},
 	}
 }
 
@@ -1815,6 +1889,14 @@ func main() {
 	dv.Quiet()
 	dv.Open()
 	defer dv.Close()
+	// the labelmap /split endpoint is off unless the server configuration allows it
+	cfgFile := os.TempDir() + "/c13-server.toml"
+	if err := os.WriteFile(cfgFile, []byte("[server]\nallowLabelmapSplit = true\n"), 0o644); err != nil {
+		fatal("can't write %s: %v", cfgFile, err)
+	}
+	if err := server.LoadConfig(cfgFile); err != nil || !server.AllowLabelmapSplit() {
+		fatal("can't enable labelmap split: %v", err)
+	}
 
 	rule := "distinct op sequences"
 	if o.Replay != "" {
@@ -1826,9 +1908,9 @@ func main() {
 		}
 		runStored(run, "history", jc)
 	} else {
-		n := 15
+		n := 16
 		if o.Thorough() {
-			n = 122
+			n = 123
 		}
 		if o.N > 0 {
 			n = o.N
